@@ -4,20 +4,171 @@ import PhyVerif.Spec.C18
 namespace PhyVerif.C18.Lemmas
 open PhyVerif PhyVerif.C18
 
-theorem value_roundtrip (v : PV) (h : WF v) : decode (encode v) = canon v := by
-  sorry
+/-! ### JSON values -/
+
+/-- decoding a list of plain integers is the identity -/
+theorem decodeList_ofInts (items : List Int) : decodeList (ofInts items) = ofInts items := by
+  induction items with
+  | nil => simp [ofInts, decodeList]
+  | cons i is ih => simp [ofInts, decodeList, decode, ih]
+
+/-- the object hook recognises an encoded array -/
+theorem decode_marker (dtype : String) (shape : List Nat) (items : List Int) :
+    decode (marker dtype shape items) = .arr dtype shape items := by
+  simp [marker, decode, findArr]
+
+/-- a user dictionary without the reserved key is not mistaken for an encoded array -/
+theorem findArr_encodeDict : ∀ (kv : PVDict), WFDict kv → findArr (encodeDict kv) = none
+  | .nil, _ => by simp [encodeDict, findArr]
+  | .cons k v t, h => by
+    have h' : k ≠ "__ndarray__" ∧ WF v ∧ WFDict t := by simpa [WFDict] using h
+    simp [encodeDict, findArr, h'.1, findArr_encodeDict t h'.2.2]
+
+mutual
+theorem vr : ∀ (v : PV), WF v → decode (encode v) = canon v
+  | .none, _ => by simp [encode, decode, canon]
+  | .bool _, _ => by simp [encode, decode, canon]
+  | .int _, _ => by simp [encode, decode, canon]
+  | .float _, _ => by simp [encode, decode, canon]
+  | .str _, _ => by simp [encode, decode, canon]
+  | .npScalar _, _ => by simp [encode, decode, canon]
+  | .arr dtype [] items, _ => by simp [encode, canon, decode_marker]
+  | .arr dtype [n] items, _ => by
+    by_cases hn : (n ≤ 10 && !isComplexDtype dtype) = true
+    · simp only [encode, canon, hn, if_true]
+      simp [decode, decodeList_ofInts]
+    · simp only [encode, canon, hn]
+      exact decode_marker ..
+  | .arr dtype (_ :: _ :: _) items, _ => by simp [encode, canon, decode_marker]
+  | .list l, h => by
+    have := vrL l (by simpa [WF] using h)
+    simp [encode, decode, canon, this]
+  | .dict kv, h => by
+    have hd : WFDict kv := by simpa [WF] using h
+    have := vrD kv hd
+    simp [encode, decode, canon, this, findArr_encodeDict kv hd]
+theorem vrL : ∀ (l : PVList), WFList l → decodeList (encodeList l) = canonList l
+  | .nil, _ => by simp [encodeList, decodeList, canonList]
+  | .cons x t, h => by
+    have h' : WF x ∧ WFList t := by simpa [WFList] using h
+    simp [encodeList, decodeList, canonList, vr x h'.1, vrL t h'.2]
+theorem vrD : ∀ (kv : PVDict), WFDict kv → decodeDict (encodeDict kv) = canonDict kv
+  | .nil, _ => by simp [encodeDict, decodeDict, canonDict]
+  | .cons k x t, h => by
+    have h' : k ≠ "__ndarray__" ∧ WF x ∧ WFDict t := by simpa [WFDict] using h
+    simp [encodeDict, decodeDict, canonDict, vr x h'.2.1, vrD t h'.2.2]
+end
+
+theorem value_roundtrip (v : PV) (h : WF v) : decode (encode v) = canon v := vr v h
 
 theorem key_roundtrip (hs : IntStrOK) (k : Key) (hk : KeyOK k) : intifyKey (stringifyKey k) = k := by
-  sorry
+  cases k with
+  | int i => simp [stringifyKey, intifyKey, (hs i).1, (hs i).2]
+  | str s =>
+    have : isIntString s = false := hk
+    simp [stringifyKey, intifyKey, this]
 
 theorem json_roundtrip (hs : IntStrOK) (d : List (Key × PV)) (hk : ∀ kv ∈ d, KeyOK kv.1 ∧ WF kv.2) :
     roundTrip d = d.map fun kv => (kv.1, canon kv.2) := by
-  sorry
+  unfold roundTrip
+  apply List.map_congr_left
+  intro kv hkv
+  rw [key_roundtrip hs kv.1 (hk kv hkv).1, value_roundtrip kv.2 (hk kv hkv).2]
 
 theorem isIntString_neg_example : isIntString "-1" = true ∧ isIntString "12" = true ∧
     isIntString "1x" = false ∧ isIntString "-" = false ∧ isIntString "" = false := by
-  sorry
+  decide
 
+/-! ### TSV / CSV tables -/
+
+theorem insert_perm (x : String) (l : List String) : (sortStrings.insert x l).Perm (x :: l) := by
+  induction l with
+  | nil => simp [sortStrings.insert]
+  | cons y ys ih =>
+    simp only [sortStrings.insert]
+    split
+    · exact List.Perm.refl _
+    · exact (List.Perm.cons y ih).trans (List.Perm.swap x y ys)
+
+theorem sortStrings_perm (l : List String) : (sortStrings l).Perm l := by
+  induction l with
+  | nil => simp [sortStrings]
+  | cons x xs ih =>
+    have : sortStrings (x :: xs) = sortStrings.insert x (sortStrings xs) := by simp [sortStrings]
+    rw [this]
+    exact (insert_perm x _).trans (List.Perm.cons x ih)
+
+theorem nodup_eraseDups (l : List String) : l.eraseDups.Nodup := by
+  generalize hn : l.length = n
+  induction n using Nat.strongRecOn generalizing l with
+  | _ n ih =>
+    cases l with
+    | nil => simp
+    | cons a as =>
+      rw [List.eraseDups_cons, List.nodup_cons]
+      refine ⟨?_, ih _ ?_ _ rfl⟩
+      · simp [List.mem_eraseDups]
+      · have := List.length_filter_le (fun b => !b == a) as
+        simp at hn; omega
+
+/-- the header line of `write_tsv` -/
+def header (rows : List (List (String × Cell))) (first : Option String) : List String :=
+  let fields := (rows.flatMap fun r => r.map (·.1)).eraseDups
+  match first with
+  | some f => if fields.contains f then f :: sortStrings (fields.erase f) else sortStrings fields
+  | none => sortStrings fields
+
+theorem writeTsv_eq (render : Cell → String) (rows : List (List (String × Cell))) (first : Option String) :
+    writeTsv render rows first =
+      if rows.isEmpty then none else
+        some (header rows first, rows.map fun r => (header rows first).map fun f =>
+          match r.lookup f with
+          | some c => render c
+          | none => "") := rfl
+
+theorem header_perm (rows : List (List (String × Cell))) (first : Option String) :
+    (header rows first).Perm (rows.flatMap fun r => r.map (·.1)).eraseDups := by
+  unfold header
+  cases first with
+  | none => exact sortStrings_perm _
+  | some f =>
+    simp only
+    split
+    · rename_i hc
+      have hm := List.contains_iff_mem.mp hc
+      exact (List.Perm.cons f (sortStrings_perm _)).trans (List.perm_cons_erase hm).symm
+    · exact sortStrings_perm _
+
+theorem header_nodup (rows : List (List (String × Cell))) (first : Option String) :
+    (header rows first).Nodup :=
+  (header_perm rows first).nodup_iff.mpr (nodup_eraseDups _)
+
+theorem mem_header (rows : List (List (String × Cell))) (first : Option String)
+    (r : List (String × Cell)) (hr : r ∈ rows) (fc : String × Cell) (hfc : fc ∈ r) :
+    fc.1 ∈ header rows first := by
+  rw [(header_perm rows first).mem_iff, List.mem_eraseDups, List.mem_flatMap]
+  exact ⟨r, hr, List.mem_map.mpr ⟨fc, hfc, rfl⟩⟩
+
+/-- one line written then read back -/
+theorem line_roundtrip (render : Cell → String) (parse : String → Cell)
+    (hrt : ∀ c, parse (render c) = c) (hne : ∀ c, render c ≠ "")
+    (r : List (String × Cell)) (fields : List String) :
+    (((fields.zip (fields.map fun f =>
+        match r.lookup f with
+        | some c => render c
+        | none => "")).filter fun p => p.2 != "").map fun p => (p.1, parse p.2)) =
+      fields.filterMap fun f => (r.lookup f).map fun c => (f, c) := by
+  induction fields with
+  | nil => simp
+  | cons f fs ih =>
+    simp only [List.map_cons, List.zip_cons_cons, List.filterMap_cons]
+    cases hl : r.lookup f with
+    | none => simpa [List.filter_cons] using ih
+    | some c => simpa [List.filter_cons, hne c, hrt c] using ih
+
+/- `hnodup` is not needed by the proof: `expectedRows` and `writeTsv` both use `List.lookup`
+(first occurrence of a field), so duplicate field names inside a row are handled consistently. -/
+set_option linter.unusedVariables false in
 theorem tsv_roundtrip (render : Cell → String) (parse : String → Cell)
     (hrt : ∀ c, parse (render c) = c) (hne : ∀ c, render c ≠ "")
     (rows : List (List (String × Cell))) (first : Option String)
@@ -25,11 +176,107 @@ theorem tsv_roundtrip (render : Cell → String) (parse : String → Cell)
     (hw : writeTsv render rows first = some file) :
     readTsv parse file = expectedRows file.1 rows ∧
     (∀ r ∈ rows, ∀ fc ∈ r, fc.1 ∈ file.1) ∧ file.1.Nodup := by
-  sorry
+  rw [writeTsv_eq] at hw
+  split at hw
+  · exact absurd hw (by simp)
+  · have hfile := (Option.some.inj hw).symm
+    subst hfile
+    refine ⟨?_, fun r hr fc hfc => mem_header rows first r hr fc hfc, header_nodup rows first⟩
+    simp only [readTsv, expectedRows, List.map_map]
+    apply List.map_congr_left
+    intro r _
+    exact line_roundtrip render parse hrt hne r _
 
 theorem tsv_first_field_first (render : Cell → String) (rows : List (List (String × Cell))) (f : String)
     (hf : ∃ r ∈ rows, f ∈ r.map (·.1)) (file : List String × List (List String))
     (hw : writeTsv render rows (some f) = some file) : file.1.head? = some f := by
-  sorry
+  rw [writeTsv_eq] at hw
+  split at hw
+  · exact absurd hw (by simp)
+  · have hfile := (Option.some.inj hw).symm
+    subst hfile
+    obtain ⟨r, hr, hfr⟩ := hf
+    have hm : f ∈ (rows.flatMap fun r => r.map (·.1)).eraseDups := by
+      rw [List.mem_eraseDups, List.mem_flatMap]
+      exact ⟨r, hr, hfr⟩
+    show (header rows (some f)).head? = some f
+    unfold header
+    simp only
+    rw [if_pos (List.contains_iff_mem.mpr hm)]
+    rfl
+
+/-! ### Bonus: the transport hypothesis `IntStrOK` holds for `intToStr := toString` -/
+
+theorem parseNat_eq (cs : List Char) : parseNat cs = Nat.ofDigitChars 10 cs 0 := by
+  unfold parseNat Nat.ofDigitChars
+  generalize 0 = init
+  induction cs generalizing init with
+  | nil => rfl
+  | cons c cs ih => simp only [List.foldl_cons]; rw [Nat.mul_comm]; exact ih _
+
+theorem parseNat_toDigits (n : Nat) : parseNat (Nat.toDigits 10 n) = n := by
+  rw [parseNat_eq]; exact Nat.ofDigitChars_ten_toDigits
+
+theorem all_isDigit_toDigits (n : Nat) : (Nat.toDigits 10 n).all Char.isDigit = true := by
+  rw [List.all_eq_true]
+  intro c hc
+  exact Nat.isDigit_of_mem_toDigits (by decide) (by decide) hc
+
+theorem isIntString_of_nonneg {s : String} {c : Char} {cs : List Char} (h : s.toList = c :: cs)
+    (hc : c ≠ '-') : isIntString s = (c :: cs).all Char.isDigit ∧ parseInt s = (parseNat (c :: cs) : Nat) := by
+  unfold isIntString parseInt
+  rw [h]
+  constructor
+  · show (match c :: cs with
+      | [] => false
+      | '-' :: rest => !rest.isEmpty && rest.all Char.isDigit
+      | _ => (c :: cs).all Char.isDigit) = _
+    split
+    · contradiction
+    · rename_i h'; injection h' with h1 _; exact absurd h1 hc
+    · rfl
+  · split
+    · rename_i h'; injection h' with h1 _; exact absurd h1 hc
+    · rfl
+
+theorem isIntString_of_neg {s : String} {rest : List Char} (h : s.toList = '-' :: rest) :
+    isIntString s = (!rest.isEmpty && rest.all Char.isDigit) ∧ parseInt s = -((parseNat rest : Nat) : Int) := by
+  unfold isIntString parseInt
+  rw [h]
+  exact ⟨rfl, rfl⟩
+
+theorem natRepr_ok (n : Nat) : ∃ c cs, n.repr.toList = c :: cs ∧ c ≠ '-' ∧ (c :: cs).all Char.isDigit = true
+    ∧ parseNat (c :: cs) = n := by
+  have hl : n.repr.toList = Nat.toDigits 10 n := Nat.toList_repr
+  have hall := all_isDigit_toDigits n
+  have hp := parseNat_toDigits n
+  cases hd : Nat.toDigits 10 n with
+  | nil => exact absurd hd Nat.toDigits_ne_nil
+  | cons c cs =>
+    rw [hd] at hall hp
+    refine ⟨c, cs, by rw [hl, hd], ?_, hall, hp⟩
+    intro hc
+    subst hc
+    simp at hall
+
+/-- the transport hypothesis `IntStrOK` holds for the concrete `intToStr := toString` -/
+theorem intStrOK : IntStrOK := by
+  intro i
+  unfold intToStr
+  rw [Int.toString_eq_repr, Int.repr_eq_if]
+  split
+  · rename_i hi
+    obtain ⟨c, cs, h, hc, hall, hp⟩ := natRepr_ok i.toNat
+    obtain ⟨h1, h2⟩ := isIntString_of_nonneg h hc
+    rw [h1, h2, hall, hp]
+    exact ⟨rfl, Int.toNat_of_nonneg hi⟩
+  · rename_i hi
+    obtain ⟨c, cs, h, hc, hall, hp⟩ := natRepr_ok (-i).toNat
+    have h' : ("-" ++ (-i).toNat.repr).toList = '-' :: (c :: cs) := by
+      rw [String.toList_append, h]; rfl
+    obtain ⟨h1, h2⟩ := isIntString_of_neg h'
+    rw [h1, h2, hall, hp]
+    refine ⟨rfl, ?_⟩
+    omega
 
 end PhyVerif.C18.Lemmas
